@@ -7,6 +7,7 @@ use fn_graph::{DataAccessDyn, Edge, EdgeCounts, FnGraph, FnIdInner, Rank, TypeId
 
 use crate::exec::{st, N};
 use crate::nd;
+use crate::vlog;
 
 /// Data types functions may declare access to.
 pub struct D0;
@@ -81,6 +82,37 @@ pub fn kind_of(k: u8) -> Edge {
     }
 }
 
+
+/// Ranks as `build()` computes them: longest chain of Logic / Contains edges
+/// ending at each function (n rounds of relaxation; `user[a][b]`: such an edge a -> b).
+fn ranks_of(n: usize, user: &[[bool; N]; N]) -> Vec<Rank> {
+    let mut r = [0usize; N];
+    let mut round = 0;
+    while round < N {
+        let mut a = 0;
+        while a < N {
+            let mut b = 0;
+            while b < N {
+                if user[a][b] && r[b] < r[a] + 1 {
+                    r[b] = r[a] + 1;
+                }
+                b += 1;
+            }
+            a += 1;
+        }
+        round += 1;
+    }
+    let mut v = Vec::with_capacity(N);
+    let mut i = 0;
+    while i < N {
+        if i < n {
+            v.push(Rank(r[i]));
+        }
+        i += 1;
+    }
+    v
+}
+
 /// An arbitrary built graph with `n` functions that satisfies the
 /// representation invariant (RepInv) the build-side harnesses establish:
 /// `graph_structure` has exactly the edges of `graph` (same order, same kinds),
@@ -100,6 +132,7 @@ pub fn sym_run_graph(n: usize) -> FnGraph<Fx> {
     let mut gr = Dag::<(), Edge, FnIdInner>::new();
     let mut incoming = [0usize; N];
     let mut outgoing = [0usize; N];
+    let mut user = [[false; N]; N];
     let mut i = 0;
     while i < N {
         if i < n {
@@ -117,13 +150,18 @@ pub fn sym_run_graph(n: usize) -> FnGraph<Fx> {
                 let c = nd::below(3);
                 if c != 0 {
                     let (a, b) = if c == 1 { (i, j) } else { (j, i) };
-                    let kind = kind_of(nd::below(3));
+                    let kc = nd::below(3);
+                    let kind = kind_of(kc);
                     let (na, nb) = (daggy::NodeIndex::new(a), daggy::NodeIndex::new(b));
                     let r = g.add_edge(na, nb, kind);
                     nd::assume(r.is_ok());
                     let _ = gs.add_edge(na, nb, kind);
                     let _ = gr.add_edge(nb, na, kind);
                     s.edge[a][b] = true;
+                    vlog!("edge {} -> {} kind {}", a, b, kc);
+                    if kc != 2 {
+                        user[a][b] = true;
+                    }
                     incoming[b] += 1;
                     outgoing[a] += 1;
                 }
@@ -147,7 +185,7 @@ pub fn sym_run_graph(n: usize) -> FnGraph<Fx> {
         }
         i += 1;
     }
-    let ranks = vec![Rank(0); n];
+    let ranks = ranks_of(n, &user);
     let counts = EdgeCounts::new(incoming[..n].to_vec(), outgoing[..n].to_vec());
     fn_graph::verif_hooks::fn_graph_from_parts(g, gs, gr, ranks, counts)
 }
@@ -163,6 +201,7 @@ pub fn shape_run_graph(n: usize, shape: &[(u8, u8, u8)]) -> FnGraph<Fx> {
     let mut gr = Dag::<(), Edge, FnIdInner>::new();
     let mut incoming = [0usize; N];
     let mut outgoing = [0usize; N];
+    let mut user = [[false; N]; N];
     let mut i = 0;
     while i < n {
         g.add_node(Fx { id: i as u8, acc: [ACC_NONE; K] });
@@ -180,6 +219,10 @@ pub fn shape_run_graph(n: usize, shape: &[(u8, u8, u8)]) -> FnGraph<Fx> {
         gs.add_edge(na, nb, kind).expect("shape must be acyclic");
         gr.add_edge(nb, na, kind).expect("shape must be acyclic");
         s.edge[a][b] = true;
+        vlog!("edge {} -> {} kind {}", a, b, k % 3);
+        if k % 3 != 2 {
+            user[a][b] = true;
+        }
         incoming[b] += 1;
         outgoing[a] += 1;
         e += 1;
@@ -197,7 +240,7 @@ pub fn shape_run_graph(n: usize, shape: &[(u8, u8, u8)]) -> FnGraph<Fx> {
         }
         i += 1;
     }
-    let ranks = vec![Rank(0); n];
+    let ranks = ranks_of(n, &user);
     let counts = EdgeCounts::new(incoming[..n].to_vec(), outgoing[..n].to_vec());
     fn_graph::verif_hooks::fn_graph_from_parts(g, gs, gr, ranks, counts)
 }
